@@ -156,7 +156,10 @@ def _gen_flight(rng, prim, tier):
             t = rng.randrange(g)
             scripts[t].append(_op(0, rng.randint(1, nkeys), 0, 0))
             sched.append(_t(t))
-    return {"prim": prim, "n": 0, "m": 0, "scripts": scripts, "sched": sched}
+    case = {"prim": prim, "n": 0, "m": 0, "scripts": scripts, "sched": sched}
+    if g >= 2 and rng.random() < 0.2:
+        case["split"] = rng.randint(1, g - 1)     # two independent instances: same keys, no shared state
+    return case
 
 
 def _gen_atomic(rng, prim, tier):
@@ -335,6 +338,27 @@ def _gen_pool(rng, tier):
                 sched.append({"k": "a", "v": d})
                 now += d
     return {"prim": "pool", "n": n, "m": maxage, "scripts": scripts, "sched": sched}
+
+
+def _gen_pool_slow_destroy(rng):
+    """pool at its limit, every idle resource over age, a slow destroy callback (gate 80+id): the Get that
+    found them sits in destroy holding the lock; another Get arrives; replacements come only afterwards"""
+    lim = rng.choice([1, 1, 2])
+    maxage = rng.choice([5, 10])
+    g = lim + 1
+    scripts = [[_op(0), _op(1)] for _ in range(lim)] + [[]]
+    sched = [_t(i) for i in range(lim)] + [_t(i) for i in range(lim)] + [{"k": "a", "v": maxage + rng.randint(1, 30)}]
+    scripts[0].append(_op(0, 0, 0, 2))       # this Get runs the slow destroys
+    sched.append(_t(0))
+    scripts[lim].append(_op(0))               # a newcomer while destroy is still running
+    sched.append(_t(lim))
+    for rid in range(lim, 0, -1):             # idle list is LIFO: the last one put is met first
+        sched.append({"k": "o", "v": 80 + rid})
+    scripts[0].append(_op(1))
+    sched.append(_t(0))
+    scripts[lim].append(_op(1))
+    sched.append(_t(lim))
+    return {"prim": "pool", "n": lim, "m": maxage, "scripts": scripts, "sched": sched}
 
 
 def _gen_tl(rng, tier):
@@ -568,6 +592,8 @@ def _gen_one(rng, prim, tier):
         return _gen_free(rng, prim)
     if prim in ("sf", "lc", "bar", "rm"):
         return _gen_flight(rng, prim, tier)
+    if prim == "pool" and rng.random() < 0.15:
+        return _gen_pool_slow_destroy(rng)
     if prim == "pool":
         return _gen_pool(rng, tier)
     if prim == "tl":
@@ -631,6 +657,27 @@ def _directed():
     # and the Borrow stays blocked (before the fix they paired up: 1 outstanding borrow on a limit of 0)
     out.append({"prim": "lim", "n": 0, "m": 0, "scripts": [[_op(0), _op(2)], [_op(2), _op(1), _op(2)]],
                 "sched": [_t(0), _t(1), _t(1), _t(1), _t(0)]})
+    # TWO instances, same key, overlapping: the second instance shares nothing with the first
+    out.append({"prim": "rm", "n": 0, "m": 0, "split": 2,
+                "scripts": [[_op(0, 1, 1, 0)], [_op(1)], [_op(0, 1, 0, 0), _op(0, 1, 0, 0)], [_op(1)]],
+                "sched": [_t(0), _t(2), _t(2), _t(3), g1, _t(1)]})
+    out.append({"prim": "sf", "n": 0, "m": 0, "split": 1, "scripts": [[_op(0, 1, 1, 101)], [_op(0, 1, 0, 201), _op(1, 1, 0, 202)]],
+                "sched": [_t(0), _t(1), _t(1), g1]})
+    out.append({"prim": "lc", "n": 0, "m": 0, "split": 1, "scripts": [[_op(0, 1, 1, 101)], [_op(0, 1, 0, 201)]],
+                "sched": [_t(0), _t(1), g1]})
+    out.append({"prim": "bar", "n": 0, "m": 0, "split": 1, "scripts": [[_op(0, 0, 1, 101)], [_op(0, 0, 0, 201)]],
+                "sched": [_t(0), _t(1), g1]})
+    out.append({"prim": "pool", "n": 1, "m": 0, "split": 1, "scripts": [[_op(0), _op(1)], [_op(0), _op(1)]],
+                "sched": [_t(0), _t(1), _t(1), _t(0)]})
+    out.append({"prim": "lim", "n": 1, "m": 0, "split": 1, "scripts": [[_op(1), _op(1), _op(2), _op(2)], [_op(1), _op(2), _op(2)]],
+                "sched": [_t(0), _t(1), _t(0), _t(1), _t(0), _t(1), _t(0)]})
+    # Pool at its limit, over-age idle resource, slow destroy: destroyed BEFORE its replacement is created
+    out.append({"prim": "pool", "n": 1, "m": 10, "scripts": [[_op(0), _op(1), _op(0, 0, 0, 2), _op(1)], [_op(0), _op(1)]],
+                "sched": [_t(0), _t(0), {"k": "a", "v": 50}, _t(0), _t(1), {"k": "o", "v": 81}, _t(0), _t(1)]})
+    # ManagedResource: TWO Takes queued behind a gated MarkBroken both find "no resource": generate runs once
+    out.append({"prim": "mr", "n": 0, "m": 0,
+                "scripts": [[_op(0), _op(1, 1, 1)], [_op(0), _op(0)], [_op(0), _op(0)], [_op(0)]],
+                "sched": [_t(0), _t(1), _t(2), _t(0), _t(1), _t(2), g1, _t(3)]})
     # ResourceManager, a NEW key: B is held up just before it enters the single flight; A's whole flight (lookup,
     # create, register) completes; then B enters: create must run once, both get the same resource, Close closes it once
     out.append({"prim": "rm", "n": 0, "m": 0,
@@ -755,6 +802,23 @@ def encode(case, obs):
         ok = bool(obs.get("ctor_panic"))
         return "mkcase %s 0 0 [] [] %s []" % (cnat(PRIM_NO[prim]), "[]" if ok else "[[(0, 0)]]")
     res = obs.get("results", [])
+    split = case.get("split", 0)
+    if split:
+        # two instances: threads >= split (second instance) are renumbered 50.. for the Coq side
+        tmap = lambda t: (50 + t - split) if (split <= t < 900) else t
+        g = len(case["scripts"])
+        pad = lambda rows, empty: [rows[t] if t < split else empty for t in range(split)] + [empty] * (50 - split) + \
+                                   [rows[t] for t in range(split, g)]
+        sub = dict(case)
+        sub.pop("split")
+        sub["scripts"] = pad(case["scripts"], [])
+        sub["sched"] = [({"k": "t", "v": tmap(st["v"])} if st["k"] == "t" else st) for st in case["sched"]]
+        sobs = dict(obs)
+        sobs["results"] = pad(res + [[]] * (g - len(res)), [])
+        sobs["hist"] = [[tmap(e[0])] + list(e[1:]) for e in obs.get("hist", [])]
+        term = encode(sub, sobs)
+        head, rest = term.split(" ", 2)[0], term.split(" ", 2)[2]
+        return "%s %s %s" % (head, cnat(PRIM_NO[prim] + 200), rest)
     scripts = []
     for t, s in enumerate(case["scripts"]):
         ops = []
@@ -850,6 +914,8 @@ def bucket(case, obs):
         out.append("tl:boundary-timeout")
     if case["prim"] in ("spinx", "donex", "oncex"):
         out.append("stress")
+    if case.get("split"):
+        out.append("two-instances")
     if case.get("spec_only"):
         out.append("history-only")
     if any(e[0] == 1000 for e in h):
